@@ -412,8 +412,8 @@ def _dcog_samples():
             dtype=dtype,
             nodata=fix.get("nodata", rnd.choice([None, 0, 255] if dtype == "uint8" else [None, 0, 65535] if dtype == "uint16" else [None, -1, 0] if dtype != "float32" else [None, float("nan"), -9999.0])),
             blocksize=fix.get("blocksize", rnd.choice([None, [64], [128, 64], [48], [256, 128, 64], [(32, 64)]])),
-            compression=fix.get("compression", rnd.choice(["deflate", "deflate", "zstd", "lzw", None])),
-            predictor=fix.get("predictor", rnd.choice([None, None, True, False])),
+            compression=fix.get("compression", rnd.choice(["deflate", "deflate", "zstd", "lzw", None, "NONE"])),
+            predictor=(lambda pr: pr)(fix.get("predictor", rnd.choice([None, None, True, False]))),
             chunks=fix.get("chunks", rnd.choice([(64, 64), (100, 37), (1000, 1000), (16, 256)])),
             spill_sz=fix.get("spill_sz", rnd.choice([None, 1, 1 << 10, 1 << 20])),
             writes_per_chunk=fix.get("writes_per_chunk", rnd.choice([None, 1, 2])),
@@ -421,6 +421,11 @@ def _dcog_samples():
             rotated=fix.get("rotated", rnd.random() < 0.2),
             crs=rnd.choice(["EPSG:4326", "EPSG:3857", "EPSG:32633"]),
         )
+
+    def no_predictor_without_compression(c):
+        if c["compression"] == "NONE" and c["predictor"]:
+            c["predictor"] = False  # tifffile refuses a predictor on uncompressed tiles: outside the quantifier
+        return c
 
     def gen():
         fixed = [
@@ -431,18 +436,20 @@ def _dcog_samples():
             dict(shape=(513, 257), layout="syx", nsamples=2, dtype="uint16", blocksize=[128, 64], chunks=(100, 100), spill_sz=1),
             dict(shape=(70, 530), layout="yx", dtype="float32", nodata=-9999.0, blocksize=[256, 128, 64], chunks=(70, 64), writes_per_chunk=2, scheduler="threads"),
             dict(shape=(64, 64), layout="yx", dtype="int16", blocksize=None, chunks=(32, 32)),
-            dict(shape=(40, 48), layout="yx", dtype="uint8", blocksize=[(16, 32)], chunks=(40, 48)),  # wide tiles; last tile column as wide as a tile is tall
+            dict(shape=(40, 48), layout="yx", dtype="uint8", blocksize=[(16, 32)], chunks=(40, 48)),
+            dict(shape=(100, 120), layout="yx", dtype="uint8", blocksize=[64], chunks=(64, 64), compression="NONE"),  # uncompressed tiles
+            dict(shape=(33, 70), layout="syx", nsamples=2, dtype="float32", nodata=float("nan"), blocksize=[32], chunks=(33, 35), compression="NONE", spill_sz=1),  # wide tiles; last tile column as wide as a tile is tall
             dict(shape=(50, 96), layout="syx", nsamples=2, dtype="int16", blocksize=[(32, 64), (16, 32)], chunks=(32, 64)),
         ]
         i = 0
         for f in fixed:
-            yield dict(case=one(i, **f))
+            yield dict(case=no_predictor_without_compression(one(i, **f)))
             i += 1
         for _ in range(120 if thorough else 24):
-            yield dict(case=one(i))
+            yield dict(case=no_predictor_without_compression(one(i)))
             i += 1
 
-    return "9 fixed + 24 (quick) / 120 (thorough) pseudo-random combinations of 7 shapes (incl. single row / column, narrower than a tile) x YX / YXS / SYX x dtypes x nodata x block-size lists x compression / predictor x source chunking x spill size x writes per chunk x synchronous / threaded scheduler x CRS x rotated", gen()
+    return "11 fixed + 24 (quick) / 120 (thorough) pseudo-random combinations of 7 shapes (incl. single row / column, narrower than a tile) x YX / YXS / SYX x dtypes x nodata x block-size lists x compression (incl. none) / predictor x source chunking x spill size x writes per chunk x synchronous / threaded scheduler x CRS x rotated", gen()
 
 
 def _dcog_oracle(args, run=None):
